@@ -61,6 +61,28 @@ class DataDesc(object):
 
     def __set__(self, obj, value):
         pass
+
+
+class ACtx(object):
+    async def __aenter__(self):
+        return self
+
+    async def __aexit__(self, *exc):
+        return False
+
+
+class AIter(object):
+    def __init__(self):
+        self.n = 0
+
+    def __aiter__(self):
+        return self
+
+    async def __anext__(self):
+        self.n += 1
+        if self.n > 1:
+            raise StopAsyncIteration
+        return self.n
 '''
 
 
@@ -300,8 +322,20 @@ class _Gen(object):
         tail = []
         if not init and self.chance(0.5):
             tail.append('    return %s' % rng.choice(VALUES + (selfname, '%s.%s' % (selfname, rng.choice(self.ipool)))))
-        return {'kind': 'method', 'name': name, 'names': [name], 'queryable': 'self', 'first': selfname,
-                'head': ['def %s(%s%s):' % (name, selfname, args)], 'assigns': assigns, 'tail': tail}
+        m = {'kind': 'method', 'name': name, 'names': [name], 'queryable': 'self', 'first': selfname,
+             'head': ['def %s(%s%s):' % (name, selfname, args)], 'assigns': assigns, 'tail': tail}
+        if not init and self.chance(self.opts.get('async_p', 0.3)):
+            # coroutine methods: the oracle drives them to completion (send(None) loop)
+            m['head'] = ['async ' + m['head'][0]]
+            m['async'] = True
+            self.features.add('async-method')
+            if assigns:
+                self.features.add('async-method-assigning-through-self')
+        if assigns and self.chance(0.35):
+            m['wrap'] = rng.choice(('async-with', 'async-with-as', 'async-for') if m.get('async') else ()) \
+                if m.get('async') and self.chance(0.7) else 'try-finally'
+            self.features.add('self-assign-inside-' + m['wrap'])
+        return m
 
     def prop(self, c, name):
         self.features.add('property')
@@ -339,6 +373,17 @@ class _Gen(object):
                     elif last is None:
                         last = stmt if len(attrs) == 1 else '%s.%s = 7' % (m['first'], bad[0])
                         self.features.add('self-assign-to-setterless-property-name')
+                wrap = m.get('wrap')
+                if wrap and safe:
+                    if wrap == 'try-finally':
+                        k = max(1, len(safe) // 2)
+                        inner = ['try:'] + ['    ' + st for st in safe[:k]] + ['finally:'] + \
+                                ['    ' + st for st in (safe[k:] or ['pass'])]
+                    else:
+                        opener = {'async-with': 'async with {D:ACtx}():', 'async-with-as': 'async with {D:ACtx}() as cm:',
+                                  'async-for': 'async for _i in {D:AIter}():'}[wrap]
+                        inner = [opener] + ['    ' + st for st in safe]
+                    safe = inner
                 body = ['    %s' % st for st in safe + m.get('alias', []) + ([last] if last else [])]
                 if not body and not m['tail']:
                     body = ['    pass']
@@ -435,7 +480,7 @@ class _Gen(object):
         out.append(head)
         first = True
         for m in c['members']:
-            if not first and m['lines'][0].startswith(('def', '@')):
+            if not first and m['lines'][0].startswith(('def', 'async def', '@')):
                 out.append('')
             first = False
             deco = m.get('deco')
@@ -446,6 +491,9 @@ class _Gen(object):
             for ln in m['lines']:
                 if deco:
                     ln = ln.replace('{%s}' % deco, dexpr)
+                for dname in re.findall(r'\{D:(\w+)\}', ln):
+                    dref = dname if self.desc_mod is mod else self.ref(mod, self.desc_mod, dname)[0]
+                    ln = ln.replace('{D:%s}' % dname, dref)
                 for kname in re.findall(r'\{K:(\w+)\}', ln):
                     kc = next(k for k in self.classes + [c] if k['name'] == kname)
                     ln = ln.replace('{K:%s}' % kname, self.ref(mod, kc['mod'], kname)[0])
@@ -453,7 +501,7 @@ class _Gen(object):
             if m.get('queryable'):
                 # line numbers (1-based, in the final file) are fixed up by the caller through `info`
                 lines = m['lines']
-                di = next(i for i, l in enumerate(lines) if l.startswith('def '))
+                di = next(i for i, l in enumerate(lines) if l.startswith(('def ', 'async def ')))
                 last = len(lines)
                 if lines[-1].lstrip().startswith('return'):
                     last -= 1
@@ -636,6 +684,10 @@ def gen_project(rng, opts=None):
     meta = {'classes': {c['name']: {'module': c['mod'].dotted, 'bases': [b if k == 'builtin' else b['name'] for k, b in c['base_items']],
                                     'depth': c['depth'], 'base_via': c.get('base_via', {})} for c in g.classes},
             'features': sorted(g.features), 'import_forms': sorted(g.forms),
+            'n_classes': len(g.classes), 'n_function_members': sum(1 for c in g.classes for m in c['members'] if 'head' in m),
+            'n_async_methods': sum(1 for c in g.classes for m in c['members'] if m.get('async')),
+            'n_async_methods_assigning': sum(1 for c in g.classes for m in c['members'] if m.get('async') and m.get('assigns')),
+            'n_classes_with_async_method': sum(1 for c in g.classes if any(m.get('async') for m in c['members'])),
             'packages': g.pkgs, 'modules': [m.dotted for m in g.all_modules]}
     return {'files': files, 'queries': queries, 'meta': meta}
 
